@@ -52,6 +52,7 @@ type worker struct {
 	res          *batchResult
 	distinctSeen map[string]bool
 	sampleEvery  int
+	logProp      string // property to which checkLog attributes a differing call log (default C14)
 	n            int
 	opts         map[string]string
 	prevLine     []byte // the case processed just before this one in the same process (call histories matter)
